@@ -111,6 +111,8 @@ type W struct {
 	dbErrArmed string
 	// LastSwapOuts are the outputs of the most recent swap request (for verbatim replays)
 	LastSwapOuts []world.Out
+	// InfoReadWhileDisabled: the info endpoint was read on this mint instance while minting was disabled
+	InfoReadWhileDisabled bool
 	// Unc, when set, makes Invariants skip entities touched by an interrupted operation (C07 durability pass)
 	Unc *Uncertain
 }
@@ -622,6 +624,9 @@ func (w *W) Canon() string {
 		}
 	}
 	fmt.Fprintf(&sb, "outs=%d/%d", ns, len(w.Outs))
+	if w.InfoReadWhileDisabled {
+		sb.WriteString(";info-read-while-disabled")
+	}
 	return sb.String()
 }
 
